@@ -110,6 +110,26 @@ func checkC13(p *Prog, res *Result, tier string) {
 					}
 				}
 			}
+			// or the fork goes through a constructor whose argument for this field is the receiver's own field
+			if !copied {
+				for _, b := range fork.Blocks {
+					ret, ok := b.Instrs[len(b.Instrs)-1].(*ssa.Return)
+					if !ok || len(ret.Results) == 0 {
+						continue
+					}
+					rv := resolve(ret.Results[0])
+					if mi, ok := rv.(*ssa.MakeInterface); ok {
+						rv = mi.X
+					}
+					if fvVal, ok := p.builtFieldValue(rv, fv); ok {
+						if ld, ok := resolve(fvVal).(*ssa.UnOp); ok {
+							if fa, ok := ld.X.(*ssa.FieldAddr); ok && fieldOf(fa) == fv && resolve(fa.X) == ssa.Value(fork.Params[0]) {
+								copied = true
+							}
+						}
+					}
+				}
+			}
 			if copied {
 				res.ok("C13-R1", construct, p.pos(fork.Pos()), "forked receiver inherits the field")
 			} else {
